@@ -1993,3 +1993,340 @@ Proof.
   intros p fi f a R. apply rel_own_code in R. rewrite R, N.eqb_refl in W2. discriminate.
 Qed.
 Print Assumptions bcvm_refines_skeleton_refuted.
+
+(* ------------------------------------------------------------------ *)
+(** * 10. Closure: capture_upvalue on the descending open list = insert_slot on the ascending captured set *)
+
+Fixpoint ins_d (loc : N) (l : list N) : list N :=
+  match l with
+  | [] => [loc]
+  | x :: r => if (loc <? x)%N then x :: ins_d loc r else if (x =? loc)%N then l else loc :: l
+  end.
+
+Lemma capture_go_slots : forall loc open fr,
+    map fst (fst (fst (capture_go loc open fr))) = ins_d loc (map fst open).
+Proof.
+  intros loc open fr; induction open as [|[s u] r IH]; cbn [capture_go map fst ins_d]; [reflexivity|].
+  destruct (loc <? s)%N.
+  - destruct (capture_go loc r fr) as [[r' a] isnew]. cbn in *. rewrite IH. reflexivity.
+  - destruct (s =? loc)%N; reflexivity.
+Qed.
+
+(* strictly descending lists of slots *)
+Fixpoint sdesc (b : N) (l : list N) : Prop :=
+  match l with [] => True | x :: r => (x < b)%N /\ sdesc x r end.
+
+Lemma sdesc_mono : forall l b b', sdesc b l -> (b <= b')%N -> sdesc b' l.
+Proof. intros [|x r] b b' H Hle; cbn in *; [exact I|]. destruct H; split; [lia | assumption]. Qed.
+
+Lemma desc_lt_sdesc : forall l b, desc_lt b l -> sdesc b (map fst l).
+Proof. induction l as [|[s u] r IH]; intros b H; cbn in *; [exact I|]. destruct H; split; [assumption | apply IH; assumption]. Qed.
+
+Lemma filter_none_lt : forall l b base, sdesc b l -> (b <= base)%N -> filter (fun x => (base <=? x)%N) l = [].
+Proof.
+  induction l as [|x r IH]; intros b base H Hle; cbn; [reflexivity|]. destruct H as [Hx Hr].
+  assert (E : (base <=? x)%N = false) by (apply N.leb_gt; lia). rewrite E. eapply IH; [exact Hr | lia].
+Qed.
+
+(* F1: for loc >= base, filtering the slots >= base commutes with the insertion *)
+Lemma filter_ins_d : forall l b base loc, sdesc b l -> (base <= loc)%N ->
+    filter (fun x => (base <=? x)%N) (ins_d loc l) = ins_d loc (filter (fun x => (base <=? x)%N) l).
+Proof.
+  induction l as [|x r IH]; intros b base loc H Hloc; cbn [ins_d filter].
+  - assert (E : (base <=? loc)%N = true) by (apply N.leb_le; exact Hloc). rewrite E. reflexivity.
+  - destruct H as [Hx Hr].
+    destruct (loc <? x)%N eqn:E1.
+    + apply N.ltb_lt in E1. assert (E : (base <=? x)%N = true) by (apply N.leb_le; lia).
+      cbn [filter]. rewrite E. cbn [ins_d]. assert (E1' : (loc <? x)%N = true) by (apply N.ltb_lt; exact E1).
+      rewrite E1'. f_equal. eapply IH; eassumption.
+    + apply N.ltb_ge in E1. destruct (x =? loc)%N eqn:E2.
+      * apply N.eqb_eq in E2. subst x. assert (E : (base <=? loc)%N = true) by (apply N.leb_le; exact Hloc).
+        cbn [filter]. rewrite E. cbn [ins_d]. rewrite N.ltb_irrefl, N.eqb_refl. reflexivity.
+      * apply N.eqb_neq in E2. assert (E : (base <=? loc)%N = true) by (apply N.leb_le; exact Hloc).
+        cbn [filter]. rewrite E.
+        destruct (base <=? x)%N eqn:E3.
+        -- cbn [ins_d]. assert (A : (loc <? x)%N = false) by (apply N.ltb_ge; exact E1). rewrite A.
+           assert (B : (x =? loc)%N = false) by (apply N.eqb_neq; exact E2). rewrite B. reflexivity.
+        -- (* x < base <= loc: everything from x on is filtered out *)
+           apply N.leb_gt in E3.
+           rewrite (filter_none_lt r x base Hr) by lia. reflexivity.
+Qed.
+
+Lemma ins_d_all_gt : forall l loc, Forall (fun y => (loc < y)%N) l -> ins_d loc l = l ++ [loc].
+Proof.
+  induction l as [|x r IH]; intros loc H; cbn [ins_d app]; [reflexivity|].
+  inversion H as [|? ? Hx Hr]; subst. assert (E : (loc <? x)%N = true) by (apply N.ltb_lt; exact Hx).
+  rewrite E. f_equal. apply IH; exact Hr.
+Qed.
+
+Lemma ins_d_app_small : forall l loc x, (x < loc)%N -> ins_d loc (l ++ [x]) = ins_d loc l ++ [x].
+Proof.
+  induction l as [|y r IH]; intros loc x H; cbn [ins_d app].
+  - assert (E : (loc <? x)%N = false) by (apply N.ltb_ge; lia).
+    assert (E2 : (x =? loc)%N = false) by (apply N.eqb_neq; lia). rewrite E, E2. reflexivity.
+  - destruct (loc <? y)%N; [cbn [app]; f_equal; apply IH; exact H|].
+    destruct (y =? loc)%N; reflexivity.
+Qed.
+
+Lemma ins_d_last_eq : forall l x, Forall (fun y => (x < y)%N) l -> ins_d x (l ++ [x]) = l ++ [x].
+Proof.
+  induction l as [|y r IH]; intros x H; cbn [ins_d app].
+  - rewrite N.ltb_irrefl, N.eqb_refl. reflexivity.
+  - inversion H as [|? ? Hy Hr]; subst. assert (E : (x <? y)%N = true) by (apply N.ltb_lt; exact Hy).
+    rewrite E. f_equal. apply IH; exact Hr.
+Qed.
+
+(* strictly ascending captured sets *)
+Fixpoint sasc (lo : option N) (l : list N) : Prop :=
+  match l with
+  | [] => True
+  | x :: r => match lo with Some b => (b < x)%N | None => True end /\ sasc (Some x) r
+  end.
+
+Lemma sasc_forall_gt : forall l b, sasc (Some b) l -> Forall (fun y => (b < y)%N) l.
+Proof.
+  induction l as [|x r IH]; intros b H; [constructor|]. destruct H as [Hx Hr].
+  constructor; [exact Hx|]. apply IH in Hr. eapply Forall_impl; [|exact Hr]. cbn. intros; lia.
+Qed.
+
+(* F2 *)
+Lemma ins_d_insert_slot : forall cap lo base sl, sasc lo cap ->
+    ins_d (base + sl) (rev (map (N.add base) cap)) = rev (map (N.add base) (Skeleton.insert_slot sl cap)).
+Proof.
+  induction cap as [|x r IH]; intros lo base sl H; cbn [Skeleton.insert_slot map rev ins_d app]; [reflexivity|].
+  destruct H as [_ Hr].
+  assert (G : Forall (fun y => (base + x < y)%N) (rev (map (N.add base) r))).
+  { apply Forall_rev. apply sasc_forall_gt in Hr. rewrite Forall_map. eapply Forall_impl; [|exact Hr]. cbn. intros; lia. }
+  destruct (sl <? x)%N eqn:E1.
+  - apply N.ltb_lt in E1. cbn [map rev].
+    rewrite <- app_assoc. cbn [app].
+    rewrite ins_d_all_gt.
+    + rewrite <- app_assoc. reflexivity.
+    + apply Forall_app. split; [eapply Forall_impl; [|exact G]; cbn; intros; lia | constructor; [lia | constructor]].
+  - apply N.ltb_ge in E1. destruct (sl =? x)%N eqn:E2.
+    + apply N.eqb_eq in E2. subst sl. cbn [map rev]. apply ins_d_last_eq. exact G.
+    + apply N.eqb_neq in E2. cbn [map rev]. rewrite ins_d_app_small by lia.
+      f_equal. eapply IH. exact Hr.
+Qed.
+
+(* F3: the captured set is strictly ascending when the open list is strictly descending *)
+Lemma sdesc_filter : forall l b P, sdesc b l -> sdesc b (filter P l).
+Proof.
+  induction l as [|x r IH]; intros b P H; cbn; [exact I|]. destruct H as [Hx Hr].
+  destruct (P x); cbn; [split; [exact Hx | apply IH; exact Hr]|].
+  eapply sdesc_mono; [apply IH; exact Hr | lia].
+Qed.
+
+Lemma sdesc_rev_map_sasc : forall cap base b, sdesc b (rev (map (N.add base) cap)) -> sasc None cap.
+Proof.
+  induction cap as [|x r IH]; intros base b H; [exact I|]. cbn [map rev] in H.
+  split; [exact I|].
+  (* the last element of the descending list is the smallest *)
+  assert (K : forall (A : list N) (y b : N), sdesc b (A ++ [y]) -> sdesc b A /\ Forall (fun z => (y < z)%N) A).
+  { induction A as [|z A' IHA]; intros y b0 HA; cbn in *; [split; [exact I | constructor]|].
+    destruct HA as [Hz HA']. destruct (IHA y z HA') as [S1' F1']. split; [split; assumption|].
+    constructor; [|exact F1'].
+    clear -HA'. revert z HA'. induction A' as [|w A'' IHw]; intros z HA'; cbn in *; [lia|].
+    destruct HA' as [Hw HA'']. specialize (IHw w HA''). lia. }
+  destruct (K _ _ _ H) as [S1' F1'].
+  assert (Hr : sasc None r) by (eapply IH; exact S1').
+  destruct r as [|y r']; [exact I|]. cbn. destruct Hr as [_ Hr']. split; [|exact Hr'].
+  cbn [map rev] in F1'. apply Forall_app in F1' as [_ F2]. inversion F2; subst. lia.
+Qed.
+
+Lemma capture_go_notnew : forall loc open fr,
+    snd (capture_go loc open fr) = false -> fst (fst (capture_go loc open fr)) = open.
+Proof.
+  intros loc open fr; induction open as [|[s u] r IH]; cbn [capture_go]; intros H; [discriminate H|].
+  destruct (loc <? s)%N.
+  - destruct (capture_go loc r fr) as [[r' a] isnew]. cbn in *. rewrite IH; [reflexivity | exact H].
+  - destruct (s =? loc)%N; [reflexivity | discriminate H].
+Qed.
+
+(* what [frel]/[rel] read besides the open list *)
+Definition same_frame (s s' : bstate) : Prop :=
+  fb_frames (bs_fib s') = fb_frames (bs_fib s) /\ fb_handlers (bs_fib s') = fb_handlers (bs_fib s) /\
+  fb_retip (bs_fib s') = fb_retip (bs_fib s) /\ fb_sp (bs_fib s') = fb_sp (bs_fib s) /\
+  bs_env s' = bs_env s /\ bs_ipf s' = bs_ipf s /\ bs_chunk s' = bs_chunk s /\ bs_pc s' = bs_pc s /\
+  bs_he s' = bs_he s.
+
+Lemma same_frame_refl : forall s, same_frame s s.
+Proof. intros s; repeat split. Qed.
+
+Lemma same_frame_trans : forall a b c, same_frame a b -> same_frame b c -> same_frame a c.
+Proof.
+  unfold same_frame; intros a b c (A1 & A2 & A3 & A4 & A5 & A6 & A7 & A8 & A9) (B1 & B2 & B3 & B4 & B5 & B6 & B7 & B8 & B9).
+  repeat split; congruence.
+Qed.
+
+Lemma capture_upvalue_facts : forall s loc,
+    same_frame s (fst (capture_upvalue s loc)) /\
+    fb_open (bs_fib (fst (capture_upvalue s loc))) =
+    fst (fst (capture_go loc (fb_open (bs_fib s)) (s_next (bs_store s)))).
+Proof.
+  intros s loc. unfold capture_upvalue.
+  pose proof (capture_go_notnew loc (fb_open (bs_fib s)) (s_next (bs_store s))) as NN.
+  destruct (capture_go loc (fb_open (bs_fib s)) (s_next (bs_store s))) as [[op a] isnew]. cbn in NN.
+  destruct isnew; cbn.
+  - split; [repeat split | reflexivity].
+  - split; [repeat split | symmetry; apply NN; reflexivity].
+Qed.
+
+Section Refine5.
+  Variable p : Bytecode.program.
+
+  Lemma cap_rel_capture : forall base open cap sl fr,
+      cap_rel base open cap -> desc open ->
+      cap_rel base (fst (fst (capture_go (base + sl) open fr))) (Skeleton.insert_slot sl cap).
+  Proof.
+    intros base open cap sl fr H [b D]. unfold cap_rel in *.
+    rewrite (map_fst_filter (fun x => (base <=? x)%N)) in *.
+    rewrite capture_go_slots.
+    pose proof (desc_lt_sdesc open b D) as SD.
+    rewrite (filter_ins_d (map fst open) b base (base + sl) SD) by lia.
+    rewrite H.
+    eapply ins_d_insert_slot.
+    eapply (sdesc_rev_map_sasc cap base b). rewrite <- H. apply sdesc_filter. exact SD.
+  Qed.
+
+  Lemma capture_all_facts : forall uvs s base mine acc s' l cap,
+      capture_all s base mine uvs acc = Some (s', l) -> OInv s ->
+      cap_rel base (fb_open (bs_fib s)) cap ->
+      same_frame s s' /\ cap_rel base (fb_open (bs_fib s')) (Skeleton.capture_all uvs cap).
+  Proof.
+    induction uvs as [|[[] ix] r IH]; intros s base mine acc s' l cap H I C; cbn [capture_all Skeleton.capture_all] in *.
+    - inversion H; subst. split; [apply same_frame_refl | exact C].
+    - destruct (capture_upvalue_facts s (base + ix)) as [SF EO].
+      pose proof (capture_upvalue_OInv s (base + ix) I) as I1.
+      destruct (capture_upvalue s (base + ix)) as [s1 u]. cbn in *.
+      assert (C1 : cap_rel base (fb_open (bs_fib s1)) (Skeleton.insert_slot ix cap)).
+      { rewrite EO. apply cap_rel_capture; [exact C | exact (proj1 I)]. }
+      destruct (IH s1 base mine (u :: acc) s' l _ H I1 C1) as [SF2 C2].
+      split; [eapply same_frame_trans; eassumption | exact C2].
+    - destruct (nth_error mine (N.to_nat ix)); [|discriminate]. eapply IH; eassumption.
+  Qed.
+
+  Lemma refine_closure : forall s fi f a s' l i nx,
+      rel p s fi f a -> OInv s -> Bytecode.decode p f (Skeleton.pc a) = Some (i, nx) ->
+      Bytecode.iop i = Bytecode.OpClosure ->
+      Skeleton.step false p f a = Skeleton.Next l -> BcVM.step s = BNext s' ->
+      exists a', In a' l /\ rel p s' fi f a'.
+  Proof.
+    intros s fi f a s' l i nx R I D Eop Hsk Hst.
+    rewrite (step_is_exec p s fi f a i nx R D) in Hst.
+    unfold exec in Hst. rewrite Eop in Hst. cbv zeta in Hst.
+    unfold Skeleton.step, Skeleton.step_at in Hsk.
+    destruct (Skeleton.STACK_MAX <? Skeleton.h a)%N; [discriminate Hsk|].
+    unfold Bytecode.decode in D. rewrite D in Hsk.
+    unfold Skeleton.simple_effect in Hsk. rewrite Eop in Hsk.
+    destruct (Skeleton.uvs_ok f (Skeleton.h a) (Bytecode.iuvs i)); [discriminate|].
+    inversion Hsk; subst l. clear Hsk.
+    destruct (get_const (w_pc s nx) (Bytecode.ia i)) as [[t0|x0|fid|]|];
+      try (destruct (cur_frame (w_pc s nx)); discriminate Hst).
+    destruct (cur_frame (w_pc s nx)) as [fr0|] eqn:Ecf; [|discriminate].
+    destruct (get_fn (bs_env (w_pc s nx)) fid) as [fn|]; [|discriminate].
+    destruct (new_closure (w_pc s nx) fid fn (bs_mod (w_pc s nx))) as [s1 cl] eqn:En.
+    match type of Hst with
+    | context [capture_all ?x ?b ?m ?u ?ac] => destruct (capture_all x b m u ac) as [[s3 uvs]|] eqn:Ec; [|discriminate]
+    end.
+    inv_next.
+    destruct (rel_frel p s fi f a R) as (base & nrest & [Q1 Q2 Q3 Q4 Q5] & Hsp).
+    destruct R as [_ Ripf Rch Rpc _ _ Rexc]. unfold sp in Hsp.
+    (* the state before the captures: closure allocated and pushed *)
+    assert (E1 : s1 = fst (new_closure (w_pc s nx) fid fn (bs_mod (w_pc s nx)))) by (rewrite En; reflexivity).
+    assert (SF1 : same_frame (w_pc s nx) s1 /\ fb_open (bs_fib s1) = fb_open (bs_fib s) /\ bs_fibers s1 = bs_fibers s).
+    { subst s1. unfold new_closure. destruct (alloc _ _). cbn. repeat split. }
+    destruct SF1 as [SF1 [O1 Fb1]].
+    assert (I2 : OInv (push s1 (VClosure cl))).
+    { apply push_OInv. eapply OInv_same; [exact O1 | exact Fb1 | exact I]. }
+    assert (Hb : fr_base fr0 = base).
+    { destruct Q2 as (fr & rest & F1 & F2 & F3 & F4). unfold cur_frame in Ecf. cbn in Ecf.
+      rewrite F1 in Ecf. inversion Ecf; subst fr0. exact F3. }
+    assert (C2 : cap_rel base (fb_open (bs_fib (push s1 (VClosure cl)))) (Skeleton.captured a)).
+    { cbn. rewrite O1. exact Q4. }
+    rewrite Hb in Ec.
+    destruct (capture_all_facts _ _ _ _ _ _ _ _ Ec I2 C2) as [SF3 C3].
+    destruct SF1 as (A1 & A2 & A3 & A4 & A5 & A6 & A7 & A8 & A9).
+    destruct SF3 as (B1 & B2 & B3 & B4 & B5 & B6 & B7 & B8 & B9).
+    cbn in A1, A2, A3, A4, A5, A6, A7, A8, A9, B1, B2, B3, B4, B5, B6, B7, B8, B9.
+    eexists. split; [left; reflexivity|].
+    eapply (frel_rel p _ fi f base nrest);
+      cbn [Skeleton.pc Skeleton.h Skeleton.handlers Skeleton.captured Skeleton.pending Skeleton.exc].
+    - constructor; cbn.
+      + rewrite B5, A5. exact Q1.
+      + rewrite B1, A1. exact Q2.
+      + rewrite B2, A2. exact Q3.
+      + exact C3.
+      + rewrite B3, A3. exact Q5.
+    - cbn. rewrite B6, A6. exact Ripf.
+    - cbn. rewrite B7, A7. exact Rch.
+    - cbn. rewrite B8, A8. reflexivity.
+    - unfold sp. cbn. rewrite B4. cbn. rewrite A4. lia.
+    - cbn. rewrite B9, A9. exact Rexc.
+  Qed.
+End Refine5.
+
+(* ------------------------------------------------------------------ *)
+(** * 11. Summary: every instruction that stays in its frame (59 of the 65 opcodes)
+
+   Missing: Call, Invoke, SuperInvoke, IterNext, StartImport (enter a callee frame / a native / another fiber) and
+   Return (leaves the frame) - the cross-frame part, which is false in general (section 9). *)
+Section Refine6.
+  Variable p : Bytecode.program.
+
+  Definition frame_local (o : Bytecode.opcode) : bool :=
+    covered o || match o with Bytecode.OpClosure => true | _ => false end.
+
+  Lemma frame_local_spec : forall o,
+      frame_local o = false <->
+      In o [Bytecode.OpCall; Bytecode.OpInvoke; Bytecode.OpSuperInvoke; Bytecode.OpIterNext;
+            Bytecode.OpStartImport; Bytecode.OpReturn].
+  Proof.
+    intros o; split.
+    - destruct o; cbn; intros H; try discriminate H; tauto.
+    - intros H. cbn in H. repeat (destruct H as [<-|H]; [reflexivity|]). destruct H.
+  Qed.
+
+  Theorem bcvm_refines_skeleton_local : forall s fi f a s' l i nx,
+      rel p s fi f a -> OInv s ->
+      Bytecode.decode p f (Skeleton.pc a) = Some (i, nx) ->
+      frame_local (Bytecode.iop i) = true ->
+      Skeleton.step false p f a = Skeleton.Next l ->
+      BcVM.step s = BNext s' ->
+      (exists a', In a' l /\ rel p s' fi f a') \/ Skeleton.handlers a = [].
+  Proof.
+    intros s fi f a s' l i nx R I D C Hsk Hst.
+    unfold frame_local in C. apply orb_true_iff in C as [C|C].
+    - eapply bcvm_refines_skeleton_frame_partial; eassumption.
+    - destruct (Bytecode.iop i) eqn:Eop; try discriminate C.
+      left. eapply refine_closure; eassumption.
+  Qed.
+
+  Theorem verified_frame_stays_verified_local : forall n m fi f a s,
+      Verifier.verify_program p = Verifier.VOk n m ->
+      nth_error p fi = Some f ->
+      VerifierProofs.reachable false p f a ->
+      rel p s fi f a -> OInv s ->
+      exists i nx, fetch s = Some (i, nx) /\
+        (frame_local (Bytecode.iop i) = true ->
+         forall s', BcVM.step s = BNext s' ->
+                    (exists a', VerifierProofs.reachable false p f a' /\ rel p s' fi f a' /\ OInv s')
+                    \/ Skeleton.handlers a = []).
+  Proof.
+    intros n m fi f a s Hv Hf Hr R I.
+    pose proof (VerifierProofs.verify_sound p n m Hv f (nth_error_In _ _ Hf) a Hr) as NS.
+    destruct (skeleton_not_stuck_decodes p f a NS) as (i & nx & D).
+    exists i, nx. split; [rewrite (rel_fetch p s fi f a R); exact D|].
+    intros HS s' Hst.
+    destruct (Skeleton.succs false p f a) as [l|] eqn:El; [|exfalso; apply NS; reflexivity].
+    assert (Hsk : Skeleton.step false p f a = Skeleton.Next l).
+    { unfold Skeleton.succs, Skeleton.succs_at in El. unfold Skeleton.step.
+      destruct (Skeleton.step_at _ _ _ _ _); [discriminate | inversion El; reflexivity]. }
+    destruct (bcvm_refines_skeleton_local s fi f a s' l i nx R I D HS Hsk Hst) as [(a' & Hin & R')|Q];
+      [left | right; exact Q].
+    exists a'. split; [|split; [exact R' | eapply step_OInv; eassumption]].
+    eapply VerifierProofs.reach_step; [exact Hr | exact El | exact Hin].
+  Qed.
+End Refine6.
+Print Assumptions bcvm_refines_skeleton_local.
+Print Assumptions verified_frame_stays_verified_local.
